@@ -186,7 +186,92 @@ Theorem C19_model_ok_box :
 Proof. exact model_ok_box. Qed.
 Print Assumptions C19_model_ok_box.
 
+(** ---- construction histories: families of boxes built from shared / re-used array objects ----
+    [ok (CFam l)] holds only if EVERY member, with what it reports once the whole history is over, is a
+    proper region on its own: proper limits, positive volume = product of the widths of the limits it
+    reports, drawn samples contained.  The model of a family has no state shared between its members. *)
+Theorem C19_ok_sound_fam :
+  forall l, ok (CFam l) = true ->
+    Forall (fun c => bc_impl_ok c = true ->
+              proper_lims (bc_impl_lims c) /\ 0 < bc_impl_vol c /\
+              close (bc_impl_vol c) (volume (bc_impl_lims c)) = true /\
+              Forall (fun o => so_contains o = true) (bc_smps c)) l.
+Proof. exact ok_fam_sound. Qed.
+Print Assumptions C19_ok_sound_fam.
+
+Theorem C19_model_ok_fam :
+  forall ins, ok (CFam (map model_member ins)) = true /\ agree (CFam (map model_member ins)) = true.
+Proof. exact model_ok_fam. Qed.
+Print Assumptions C19_model_ok_fam.
+
+(** ---- call histories on one posterior (evaluations, weights, reset_eps_cutoff) ----
+    the decidable check threads the cut-off exactly as "the latest reset before the step, else the
+    constructor's value" *)
+Theorem C19_hist_all_spec :
+  forall f steps eps,
+    hist_all f eps steps = true <->
+    (forall i s, nth_error steps i = Some s -> is_reset s = false -> f (cutoff_at eps steps i) s = true).
+Proof. exact hist_all_spec. Qed.
+Print Assumptions C19_hist_all_spec.
+
+(** every evaluation of a history: value = prior * #{problems within the cut-off in force at that step} *)
+Theorem C19_ok_sound_hist :
+  forall c bs, ok (CHist c) = true -> mk_boxes (hc_regions c) = Some bs ->
+    forall i e, nth_error (hc_steps c) i = Some (HEval e) ->
+      all_decided (eo_tol e) bs (eo_theta e) = true ->
+      close (eo_impl_val e)
+            (eo_prior e * inject_Z (Z.of_nat (spec_count (hc_surrogate c) bs (eo_theta e) (eo_dists e)
+                                                        (cutoff_at (hc_eps0 c) (hc_steps c) i)))) = true.
+Proof. exact ok_hist_sound. Qed.
+Print Assumptions C19_ok_sound_hist.
+
+Theorem C19_ok_sound_hist_weights :
+  forall c, ok (CHist c) = true ->
+    forall i w r, nth_error (hc_steps c) i = Some (HWeight w) -> nth_error (hc_regions c) (ho_region w) = Some r ->
+      ok_w {| wc_region := r; wc_eps := cutoff_at (hc_eps0 c) (hc_steps c) i; wc_tol := hc_tol c;
+              wc_drawn := ho_drawn w; wc_obs := ho_obs w |} = true.
+Proof. exact ok_hist_sound_w. Qed.
+Print Assumptions C19_ok_sound_hist_weights.
+
+(** no cross-call state in the model: the answers after any prefix of the history are those of a posterior
+    freshly constructed with the cut-off the prefix leaves in force *)
+Theorem C19_model_hist_fresh :
+  forall sur bs s1 s2 eps,
+    model_hist sur bs eps (s1 ++ s2)
+    = model_hist sur bs eps s1 ++ model_hist sur bs (cutoff_at eps s1 (length s1)) s2.
+Proof. exact model_hist_app. Qed.
+Print Assumptions C19_model_hist_fresh.
+
+Theorem C19_model_ok_hist :
+  forall c bs, mk_boxes (hc_regions c) = Some bs -> Forall wf_box bs -> Forall (eval_wf bs) (hc_steps c) ->
+    ok (CHist {| hc_regions := hc_regions c; hc_surrogate := hc_surrogate c; hc_eps0 := hc_eps0 c; hc_tol := hc_tol c;
+                 hc_steps := model_hist (hc_surrogate c) bs (hc_eps0 c) (hc_steps c) |}) = true.
+Proof. exact model_ok_hist. Qed.
+Print Assumptions C19_model_ok_hist.
+
 (** ---- non-vacuity ---- *)
+
+(** a family: the same degenerate limits handed to two constructors; both members get the same once-widened
+    limits (+-0.0005) and volume *)
+Example C19_fam_example :
+  map (fun c => (bc_impl_ok c, bc_impl_lims c))
+      (map model_member [([[1]], Some [[1]], [0], [(0, 0)]); ([[-1]], Some [[-1]], [2], [(0, 0)])])
+  = [(true, [(Qred (- eps_secure * (1 # 2)), Qred (eps_secure * (1 # 2)))]);
+     (true, [(Qred (- eps_secure * (1 # 2)), Qred (eps_secure * (1 # 2)))])].
+Proof. vm_compute. reflexivity. Qed.
+
+(** a history: one region, objective value 1/2 at the point; cut-off 1, evaluation (count 1), reset to 1/4,
+    evaluation at the same point (count 0), reset to 3/4, evaluation (count 1) *)
+Example C19_hist_example :
+  match mk_box [[1]] (Some [[1]]) [0] [(-1, 1)] with
+  | Some b =>
+      let e := {| eo_theta := [1 # 4]; eo_dists := [1 # 2]; eo_prior := 3 # 8; eo_tol := 0;
+                  eo_impl_val := 0; eo_impl_called := [] |} in
+      map (fun s => match s with HEval o => Some (eo_impl_val o) | _ => None end)
+          (model_hist true [b] 1 [HEval e; HReset (1 # 4); HEval e; HReset (3 # 4); HEval e])
+  | None => []
+  end = [Some (3 # 8); None; Some 0; None; Some (3 # 8)].
+Proof. vm_compute. reflexivity. Qed.
 
 (** a rotated box with one degenerate dimension is constructed; its secured limits and volume *)
 Example C19_box_example :
